@@ -204,18 +204,30 @@ def same_joint(A, B):
     if not (abs(za - zb) <= 1e-9 * abs(zb) + 1e-300):
         return f"partition function {za!r} != {zb!r}"
     if zb > 0:
-        d = np.abs(A / za - B / zb)
-        if d.max() > 1e-9:
+        a, b = A / za, B / zb
+        # per entry and RELATIVE: potentials span 1e-12 .. 1e8, an absolute tolerance would hide small cells
+        d = np.abs(a - b) - 1e-9 * np.maximum(np.abs(a), np.abs(b))
+        if d.max() > 1e-290:
             idx = np.unravel_index(int(np.argmax(d)), d.shape)
-            return f"normalised joint differs at index {tuple(int(i) for i in idx)}: {float((A / za)[idx])!r} != {float((B / zb)[idx])!r}"
+            return f"normalised joint differs at index {tuple(int(i) for i in idx)}: {float(a[idx])!r} != {float(b[idx])!r}"
     return None
 
 
 # ================================================================================ generators
 def _names(rng, n):
-    if rng.random() < 0.15:
+    r = rng.random()
+    if r < 0.09:
         return list(range(1, n + 1)), "int"
-    return [f"m{i}" for i in range(n)], "str"
+    if r < 0.16:
+        return list(range(n)), "int0"                       # 0 is a falsy node name
+    if r < 0.21:
+        start = rng.choice([9, 98, 999, 10 ** 6])            # multi-digit, repr order != numeric order
+        return [start + i for i in range(n)], "intbig"
+    names = [f"m{i}" for i in range(n)]
+    if r < 0.26:
+        names[rng.randrange(n)] = ""                         # the empty string is a falsy node name too
+        return names, "str-empty"
+    return names, "str"
 
 
 def rand_graph(rng, nodes, want):
@@ -347,7 +359,11 @@ def rand_graph(rng, nodes, want):
     return edges, tpl
 
 
-def _rand_vals(rng, size):
+def _rand_vals(rng, size, uniform_ok=False):
+    if size == 1:
+        return [round(rng.choice(gen.GRID) * (1 + rng.randint(0, 3)) * (0.5 + rng.random()), 6)]
+    if uniform_ok and rng.random() < 0.06:
+        return [rng.choice([1.0, 2.0, 0.25])] * size         # a constant factor (all values equal)
     flat = [round(rng.choice(gen.GRID) * (1 + rng.randint(0, 3)), 6) if rng.random() > 0.1 else 0.0
             for _ in range(size)]
     if all(x == 0 for x in flat) or all(x == flat[0] for x in flat):
@@ -357,22 +373,41 @@ def _rand_vals(rng, size):
     return flat
 
 
-def rand_ug_spec(rng, tier, want):
+SPECIALS = ["one-node-card1", "all-card1", "single-factor", "isolated-only", "big-card"]
+EXPONENTS = [-12, -9, -6, -3, 0, 0, 3, 6, 8]
+
+
+def rand_ug_spec(rng, tier, want, special=None):
     """Markov-network / factor-graph spec: nodes, edges, card, states, factors [{"vars", "values"}]."""
     nmax = 8 if tier == "thorough" else 7
     max_joint = 16384 if tier == "thorough" else 4096
     n = rng.choice([1, 2, 3, 3, 4, 4, 4, 5, 5, 5, 6, 6, 6, 7, 7] + ([8, 8] if nmax == 8 else []))
+    if special:
+        n = {"one-node-card1": 1, "all-card1": rng.randint(2, 5), "single-factor": rng.randint(1, 4),
+             "isolated-only": rng.randint(2, 3), "big-card": rng.randint(1, 3)}[special]
     nodes, nk = _names(rng, n)
     kind = rng.choice(gen.STATE_KINDS)
     while True:
         card = {v: rng.choice(CARDS) for v in nodes}
+        if special in ("one-node-card1", "all-card1"):
+            card = {v: 1 for v in nodes}
+        if special == "big-card":
+            card = {v: rng.choice((1, 2, 3)) for v in nodes}
+            card[rng.choice(nodes)] = rng.choice((10, 11, 12))      # multi-digit cardinality
         tot = 1
         for v in nodes:
             tot *= card[v]
         if tot <= max_joint:
             break
     states = {v: gen.state_names_for(rng, v, card[v], kind) for v in nodes}
-    edges, tpl = rand_graph(rng, nodes, want)
+    if special == "single-factor":
+        edges, tpl = list(itertools.combinations(nodes, 2)), "single-factor"
+    elif special == "isolated-only":
+        edges, tpl = [], "isolated-only"
+    else:
+        edges, tpl = rand_graph(rng, nodes, want)
+    if special:
+        tpl = "special:" + special
     nb = _adj(nodes, edges)
     factors = []
 
@@ -382,20 +417,23 @@ def rand_ug_spec(rng, tier, want):
         size = 1
         for v in vs:
             size *= card[v]
-        return {"vars": vs, "values": _rand_vals(rng, size)}
+        return {"vars": vs, "values": _rand_vals(rng, size, uniform_ok=True)}
 
     p_edge = rng.choice([1.0, 0.8, 0.5])
-    for (u, v) in edges:
+    if special == "single-factor":
+        p_edge = -1.0
+        factors.append(mk(nodes))
+    for (u, v) in (edges if special != "single-factor" else []):
         if rng.random() < p_edge:
             factors.append(mk([u, v]))
             if rng.random() < 0.12:                 # a second, different factor on the same scope
                 factors.append(mk([u, v]))
     tri = [t for t in itertools.combinations(nodes, 3)
            if t[1] in nb[t[0]] and t[2] in nb[t[0]] and t[2] in nb[t[1]]]
-    for t in tri:
+    for t in (tri if special != "single-factor" else []):
         if rng.random() < 0.25:
             factors.append(mk(t))
-    for v in nodes:
+    for v in (nodes if special != "single-factor" else []):
         if rng.random() < 0.25:
             factors.append(mk([v]))
     covered = {v for f in factors for v in f["vars"]}
@@ -406,9 +444,30 @@ def rand_ug_spec(rng, tier, want):
             else:
                 factors.append(mk([v]))
             covered |= set(factors[-1]["vars"])
+    # magnitudes far from O(1), mixed inside one model (and sometimes inside one factor); the summed
+    # exponents stay within +-200 so that no order of multiplication under- or overflows
+    mag = "O(1)"
+    if rng.random() < 0.3:
+        mag = "mixed"
+        lo = hi = 0
+        for f in factors:
+            per_entry = rng.random() < 0.3
+            exps = [rng.choice(EXPONENTS) for _ in f["values"]] if per_entry else [rng.choice(EXPONENTS)] * len(f["values"])
+            if lo + min(exps) < -200 or hi + max(exps) > 200:
+                continue
+            lo, hi = lo + min(exps), hi + max(exps)
+            f["values"] = [x * 10.0 ** e for x, e in zip(f["values"], exps)]
+        if rng.random() < 0.35 and lo > -180:
+            # two DIFFERENT factors on one scope whose entries are all below numpy's default atol (1e-8)
+            base = rng.choice(factors)
+            for _ in range(2):
+                factors.append({"vars": list(base["vars"]),
+                                "values": [(0.1 + rng.random()) * 1e-10 for _ in base["values"]]})
     # equal duplicates
     dup = "none"
     r = rng.random()
+    if special == "single-factor":
+        r = 1.0
     if r < 0.35:
         dup = "equal" if r < 0.2 else "transposed"
         for _ in range(rng.choice([1, 1, 2])):
@@ -421,9 +480,17 @@ def rand_ug_spec(rng, tier, want):
                 vs = [vs[i] for i in perm]
                 arr = np.transpose(arr, perm)
             factors.append({"vars": vs, "values": [float(x) for x in arr.reshape(-1)]})
+    if special is None and rng.random() < 0.08:
+        # same VALUES on another scope of the same shape (equal bytes, different variables)
+        f = rng.choice(factors)
+        shp = [card[v] for v in f["vars"]]
+        for g in list(factors):
+            if g is not f and set(g["vars"]) != set(f["vars"]) and [card[v] for v in g["vars"]] == shp:
+                factors.append({"vars": list(g["vars"]), "values": list(f["values"])})
+                break
     rng.shuffle(factors)
     spec = {"nodes": nodes, "edges": [list(e) for e in edges], "card": card, "states": states,
-            "factors": factors, "kind": kind, "names": nk, "template": tpl, "dup": dup}
+            "factors": factors, "kind": kind, "names": nk, "template": tpl, "dup": dup, "mag": mag}
     # certify Z > 0 (otherwise there is no normalised joint to preserve)
     if joint_of(spec, factors).sum() <= 0:
         for f in factors:
@@ -436,15 +503,36 @@ def gen_case(seed, idx, tier):
     rng = gen.rng_for("C14", seed, idx)
     r = rng.random()
     spec = {"build_seed": rng.randrange(10 ** 6)}
+    seq_on = rng.random() < 0.6
     if r < 0.25:
         spec["kind"] = "bn"
-        spec["bn"] = gen.rand_bn_spec(rng, n_range=(1, 8 if tier == "thorough" else 7), shape=rng.choice(BN_SHAPES),
-                                      max_joint=16384 if tier == "thorough" else 4096)
+        bn = gen.rand_bn_spec(rng, n_range=(1, 8 if tier == "thorough" else 7), shape=rng.choice(BN_SHAPES),
+                              max_joint=16384 if tier == "thorough" else 4096)
+        spec["bn"] = bn
+        bn["mag"] = "O(1)"
+        if rng.random() < 0.25:
+            # probabilities down to 1e-12 next to 1 - 1e-12 in some columns
+            bn["mag"] = "extreme"
+            for v in bn["nodes"]:
+                tab, k = bn["cpds"][v]["table"], bn["card"][v]
+                if k < 2:
+                    continue
+                for j in range(len(tab[0])):
+                    if rng.random() < 0.4:
+                        eps = rng.choice([1e-12, 1e-9, 1e-6, 1e-3])
+                        big = rng.randrange(k)
+                        for i in range(k):
+                            tab[i][j] = 1.0 - (k - 1) * eps if i == big else eps
+        v = rng.choice(bn["nodes"])
+        q = 1
+        for x in bn["cpds"][v]["parents"]:
+            q *= bn["card"][x]
+        spec["seq"] = {"on": seq_on, "var": v, "table": gen.rand_cpt(rng, bn["card"][v], q)}
     else:
         spec["kind"] = "mn" if r < 0.75 else "fg"
         want = "any" if (spec["kind"] == "mn" and rng.random() < 0.3) or (spec["kind"] == "fg" and rng.random() < 0.15) \
             else "connected"
-        ug = rand_ug_spec(rng, tier, want)
+        ug = rand_ug_spec(rng, tier, want, special=rng.choice(SPECIALS) if rng.random() < 0.1 else None)
         if spec["kind"] == "fg":
             # the primal graph of a factor graph is what its factors say
             ug["edges"] = [list(e) for e in sorted(_eset(scope_pairs(ug["factors"])), key=lambda s: sorted(map(repr, s)))]
@@ -457,7 +545,29 @@ def gen_case(seed, idx, tier):
             rng.shuffle(p)
             orders.append(p)
         spec["orders"] = orders
-        spec["inplace_bits"] = [rng.random() < 0.5 for _ in range(8)]
+        spec["inplace_bits"] = [rng.random() < 0.5 for _ in range(10)]
+        spec["order_as_tuple"] = rng.random() < 0.5
+        spec["h_other_case"] = rng.choice(HEURISTICS).lower()
+        # an edit of the SOURCE for the call-sequence workload: one more factor, possibly on a new edge
+        card = ug["card"]
+        nb = _adj(nodes, [tuple(e) for e in ug["edges"]])
+        non_adj = [(a, b) for a, b in itertools.combinations(nodes, 2) if b not in nb[a]]
+        new_edge = None
+        if spec["kind"] == "fg":
+            vs = rng.sample(nodes, rng.randint(1, min(3, len(nodes))))
+        elif non_adj and rng.random() < 0.5:
+            new_edge = list(rng.choice(non_adj))
+            vs = list(new_edge)
+        elif ug["edges"] and rng.random() < 0.7:
+            vs = list(rng.choice(ug["edges"]))
+        else:
+            vs = [rng.choice(nodes)]
+        rng.shuffle(vs)
+        size = 1
+        for v in vs:
+            size *= card[v]
+        spec["seq"] = {"on": seq_on, "factor": {"vars": vs, "values": _rand_vals(rng, size)}, "new_edge": new_edge,
+                       "h": [rng.choice(HEURISTICS) for _ in range(3)]}
     return spec
 
 
@@ -555,7 +665,7 @@ def names_verdict(ctx, label, lost, src, jt=False, **detail):
                   f"{list(src['states'][v])!r} ({len(lost)} variable/factor pairs affected)", **detail)
 
 
-def check_factors(ctx, label, factors, src, expect_n=None, jt=False, **detail):
+def check_factors(ctx, label, factors, src, expect_n=None, jt=False, wrong_key=None, **detail):
     """Product of the target's factors vs the source joint + state names.  Returns True if all held."""
     try:
         factors = list(factors)
@@ -565,14 +675,14 @@ def check_factors(ctx, label, factors, src, expect_n=None, jt=False, **detail):
         return False
     good = True
     if expect_n is not None and len(factors) != expect_n:
-        ctx.violation("c14:factor-count", f"{label}: target lists {len(factors)} factors, the source {expect_n} "
+        ctx.violation(wrong_key or "c14:factor-count", f"{label}: target lists {len(factors)} factors, the source {expect_n} "
                       "(every original factor must be used exactly once)", **detail)
         good = False
     diff = same_joint(J, src["J"])
     if diff:
         good = False
-        key = "c14:wrong-product"
-        if jt:
+        key = wrong_key or "c14:wrong-product"
+        if jt and not wrong_key:
             key = classify_jt_product(J, src) or "c14:jt-wrong-product"
         ctx.violation(key, f"{label}: product of target factors vs product of all source factors: {diff}", **detail)
     else:
@@ -727,6 +837,14 @@ def _features(ctx, src, pairs):
     ctx.feature("connected" if _connected(src["nodes"], pairs) else "disconnected")
     if any(x == 0 for f in src["factors"] for x in f["values"]):
         ctx.feature("zeros")
+    if "mag" in src:
+        ctx.feature("mag:" + src["mag"])
+    if len(src["factors"]) == 1:
+        ctx.feature("single-factor")
+    if all(c == 1 for c in src["card"].values()):
+        ctx.feature("all-card1")
+    if max(src["card"].values()) >= 10:
+        ctx.feature("card>=10")
 
 
 def run_bn(spec, ctx):
@@ -742,13 +860,14 @@ def run_bn(spec, ctx):
     src = {"nodes": nodes, "card": card, "states": bn["states"], "factors": factors, "kind": bn["kind"]}
     src["J"] = joint_of(src, factors)
     _, Jloop = oracle.joint_table(bn)                     # self-check of the broadcasting product
-    assert np.allclose(src["J"], Jloop, rtol=1e-12, atol=1e-15), "oracle self-check failed (BN joint)"
+    assert np.allclose(src["J"], Jloop, rtol=1e-12, atol=0), "oracle self-check failed (BN joint)"
     src["Z"] = float(src["J"].sum())
     pairs = moral_pairs(bn)
     ctx.nontrivial = len(nodes) >= 2 and len(bn["edges"]) >= 1
     ctx.feature("kind:bn")
     ctx.feature("shape-married" if len(_eset(pairs)) > len(_eset(bn["edges"])) else "shape-no-marriage")
     _features(ctx, src, pairs)
+    ctx.feature("mag:" + bn.get("mag", "O(1)"))
     ctx.xcell["Z"] = src["Z"]
     detail = dict(edges=bn["edges"], parents={v: bn["cpds"][v]["parents"] for v in nodes})
 
@@ -771,6 +890,8 @@ def run_bn(spec, ctx):
     else:
         jt = ctx.call(model.to_junction_tree)
         ctx.note("jt-disconnected-refused" if ctx.failed(jt) else "jt-disconnected-returned")
+    if spec["seq"]["on"]:
+        seq_bn(spec, ctx, bn, src, pairs, detail)
 
 
 def _src_of(ug):
@@ -778,7 +899,7 @@ def _src_of(ug):
     src["J"] = joint_of(ug, ug["factors"])
     if src["J"].size <= 512:                               # self-check of the broadcasting product
         _, Jloop = oracle.mn_joint(ug)
-        assert np.allclose(src["J"], Jloop, rtol=1e-12, atol=1e-15), "oracle self-check failed (MN joint)"
+        assert np.allclose(src["J"], Jloop, rtol=1e-12, atol=0), "oracle self-check failed (MN joint)"
     src["Z"] = float(src["J"].sum())
     assert src["Z"] > 0
     return src
@@ -812,20 +933,18 @@ def run_mn(spec, ctx):
     # ---- MN -> factor graph
     fg = ctx.call(model.to_factor_graph)
     if ctx.failed(fg):
-        key = f"c14:exception:{fg.type}@{fg.where}"
-        if fg.type == "TypeError" and ug["names"] == "int" and "to_factor_graph" in fg.where:
-            key = K_FGSTR            # the factor node is a *string* glued from the variable names
-        ctx.violation(key, f"MN.to_factor_graph raised {fg!r}", **detail)
+        ctx.violation(_fg_exc_key(fg, ug), f"MN.to_factor_graph raised {fg!r}", **detail)
     else:
         check_fg_target(ctx, fg, model, src, **detail)
 
     # ---- triangulate
-    jobs = [(h, None) for h in HEURISTICS] + [(None, o) for o in spec["orders"]]
+    jobs = [(h, None) for h in HEURISTICS] + [(None, o) for o in spec["orders"]] + [(spec["h_other_case"], None)]
     for j, (h, order) in enumerate(jobs):
         inplace = spec["inplace_bits"][j]
         modes = [inplace] if ctx.tier == "quick" else [False, True]
         for ip in modes:
-            run_triangulate(ctx, mk(), ug, src, h, order, ip, chordal, isolated, **detail)
+            run_triangulate(ctx, mk(), ug, src, h, order, ip, chordal, isolated, lenient=(j == 8),
+                            as_tuple=(j == 7 and spec["order_as_tuple"]), **detail)
 
     # ---- junction tree
     model = mk()
@@ -837,6 +956,14 @@ def run_mn(spec, ctx):
             check_jt(ctx, "MN.to_junction_tree", jt, src, pairs, **detail)
     else:
         ctx.note("jt-disconnected-refused" if ctx.failed(jt) else "jt-disconnected-returned")
+    if spec["seq"]["on"]:
+        seq_mn(spec, ctx, ug, src, pairs, connected, detail)
+
+
+def _fg_exc_key(fg, ug):
+    if fg.type == "TypeError" and ug["names"].startswith("int") and "to_factor_graph" in fg.where:
+        return K_FGSTR               # the factor node is a *string* glued from the variable names
+    return f"c14:exception:{fg.type}@{fg.where}"
 
 
 def check_fg_target(ctx, fg, model, src, **detail):
@@ -916,13 +1043,20 @@ def neutral_fg_ok(ctx, facs, src, name):
         return False
 
 
-def run_triangulate(ctx, model, ug, src, h, order, inplace, chordal, isolated, neutral=False, **detail):
+def run_triangulate(ctx, model, ug, src, h, order, inplace, chordal, isolated, neutral=False, out=None,
+                    lenient=False, as_tuple=False, **detail):
     nodes, pairs = ug["nodes"], [tuple(e) for e in ug["edges"]]
-    kw = dict(heuristic=h) if h else dict(order=list(order))
-    label = f"MN.triangulate({'heuristic=' + h if h else 'order=' + repr(list(order))}, inplace={inplace})"
+    kw = dict(heuristic=h) if h else dict(order=tuple(order) if as_tuple else list(order))
+    label = f"MN.triangulate({'heuristic=' + h if h else 'order=' + repr(kw['order'])}, inplace={inplace})"
     r = ctx.call(model.triangulate, inplace=inplace, **kw)
     target = model if inplace else r
+    if out is not None:
+        out["target"] = None if ctx.failed(r) else target
     problems = []
+    if ctx.failed(r) and lenient:
+        # a heuristic name outside H1..H6 may be refused; a RETURNED result is judged like any other
+        ctx.note("triangulate-other-case-refused")
+        return False
     if ctx.failed(r):
         problems.append((f"c14:exception:{r.type}@{r.where}", f"{label} raised {r!r}"))
     else:
@@ -1020,7 +1154,282 @@ def run_fg(spec, ctx):
             check_jt(ctx, "FG.to_junction_tree", jt, src, pairs, **detail)
     else:
         ctx.note("jt-disconnected-refused" if ctx.failed(jt) else "jt-disconnected-returned")
+    if spec["seq"]["on"] and not merged:
+        seq_fg(spec, ctx, ug, src, pairs, connected, detail)
 
 
 def run_case(spec, ctx):
     {"bn": run_bn, "mn": run_mn, "fg": run_fg}[spec["kind"]](spec, ctx)
+
+
+# ================================================================================ call sequences on ONE object
+# One model object serves several different conversions in a row, results are edited in between, finally the
+# SOURCE is edited; every answer is judged against the oracle for the model as it is at THAT call.
+def _scale_potentials(ctx, obj):
+    """Edit a RESULT in place: overwrite the values of all its factors."""
+    def edit():
+        for p in obj.factors:
+            p.values *= 3.0
+            p.values.flat[0] = 0.123
+    return not ctx.failed(ctx.call(edit))
+
+
+def _source_intact(ctx, tag, model, src, nodes, pairs, n_factors, **detail):
+    if pairs is not None:
+        check_graph(ctx, f"source after {tag}", model, nodes, pairs, "c14:source-modified", **detail)
+    facs = getattr(model, "factors", None)
+    check_factors(ctx, f"source factors after {tag}", facs, src, expect_n=n_factors,
+                  wrong_key="c14:source-modified", **detail)
+
+
+def _jt_twice(ctx, L, model, src, pairs, detail):
+    """to_junction_tree twice on one object; the first result is overwritten, the second must not change."""
+    jts = []
+    for k in (1, 2):
+        jt = ctx.call(model.to_junction_tree)
+        if ctx.failed(jt):
+            ctx.violation(f"c14:exception:{jt.type}@{jt.where}", f"{L}: to_junction_tree (call {k}) raised {jt!r}", **detail)
+            return
+        check_jt(ctx, f"{L}: to_junction_tree (call {k})", jt, src, pairs, **detail)
+        jts.append(jt)
+    if _scale_potentials(ctx, jts[0]):
+        try:
+            pots = list(jts[1].factors)
+        except Exception:
+            pots = None
+        check_factors(ctx, f"{L}: second junction tree after overwriting the first one's potentials", pots, src,
+                      jt=True, wrong_key="c14:results-aliased", **detail)
+
+
+def seq_mn(spec, ctx, ug, src, pairs, connected, detail):
+    import random
+    sq = spec["seq"]
+    nodes = ug["nodes"]
+    L = "sequence on one MarkovNetwork"
+    detail = dict(detail, sequence=True)
+    ctx.feature("seq:mn")
+    model = build_mn(ug, random.Random(spec["build_seed"] + 1))
+    nf = len(ug["factors"])
+    check_Z(ctx, f"{L}: get_partition_function()", ctx.call(model.get_partition_function), src, **detail)
+    if connected:
+        _jt_twice(ctx, L, model, src, pairs, detail)
+        _source_intact(ctx, "to_junction_tree x2 and overwriting the result", model, src, nodes, pairs, nf, **detail)
+    # a triangulated COPY is edited: the source graph must not follow
+    out = {}
+    nb = _adj(nodes, pairs)
+    isolated = [v for v in nodes if not nb[v]] if len(nodes) > 1 else []
+    run_triangulate(ctx, model, ug, src, sq["h"][0], None, False, is_chordal(nodes, pairs), isolated, out=out, **detail)
+    tgt = out.get("target")
+    if tgt is not None and tgt is not model:
+        def edit():
+            if len(nodes) >= 2:
+                tgt.remove_node(nodes[0])
+            tgt.add_edge("__x", "__y")
+        ctx.call(edit)
+        _source_intact(ctx, "editing the triangulated copy", model, src, nodes, pairs, nf, **detail)
+    # factor graph target edited structurally (its factor LIST is its own)
+    fg = ctx.call(model.to_factor_graph)
+    if ctx.failed(fg):
+        if _fg_exc_key(fg, ug) != K_FGSTR:
+            ctx.violation(_fg_exc_key(fg, ug), f"{L}: to_factor_graph raised {fg!r}", **detail)
+    else:
+        check_factors(ctx, f"{L}: to_factor_graph", getattr(fg, "factors", None), src, expect_n=nf, **detail)
+
+        def edit_fg():
+            fg.add_node("__junk")
+            fg.factors.pop()
+        ctx.call(edit_fg)
+        _source_intact(ctx, "editing the factor-graph target", model, src, nodes, pairs, nf, **detail)
+    # triangulate IN PLACE, then convert the same object
+    ok = run_triangulate(ctx, model, ug, src, sq["h"][1], None, True, is_chordal(nodes, pairs), isolated, **detail)
+    if not ok:
+        return
+    try:
+        _, ge = graph_of(model)
+        pairs2 = [tuple(e) for e in ge]
+    except Exception:
+        return
+    ug2 = dict(ug, edges=[list(sorted_pair(e)) for e in pairs2])
+    _source_intact(ctx, "triangulate(inplace=True)", model, src, nodes, None, nf, **detail)
+    if connected:
+        jt = ctx.call(model.to_junction_tree)
+        if ctx.failed(jt):
+            ctx.violation(f"c14:exception:{jt.type}@{jt.where}", f"{L}: to_junction_tree after triangulate(inplace=True) "
+                          f"raised {jt!r}", **detail)
+        else:
+            check_jt(ctx, f"{L}: to_junction_tree after triangulate(inplace=True)", jt, src, pairs2, **detail)
+    # again in place (already chordal), other heuristic; then an explicit order on the same object
+    run_triangulate(ctx, model, ug2, src, sq["h"][2], None, True, True, [], **detail)
+    run_triangulate(ctx, model, ug2, src, None, spec["orders"][0], False, True, [], **detail)
+    # ---- edit the SOURCE and convert again: nothing may be remembered from before the edit
+    f2 = sq["factor"]
+    ug3 = dict(ug2, factors=list(ug["factors"]) + [f2])
+    if sq["new_edge"]:
+        ug3["edges"] = ug2["edges"] + [list(sq["new_edge"])]
+
+    def edit_src():
+        if sq["new_edge"]:
+            model.add_edge(*sq["new_edge"])
+        model.add_factors(build_factor(ug, f2))
+    if ctx.failed(ctx.call(edit_src)):
+        return
+    src3 = _src_of(ug3)
+    pairs3 = [tuple(e) for e in ug3["edges"]]
+    check_Z(ctx, f"{L}: get_partition_function() after adding a factor", ctx.call(model.get_partition_function), src3, **detail)
+    if _connected(nodes, pairs3):
+        jt = ctx.call(model.to_junction_tree)
+        if ctx.failed(jt):
+            ctx.violation(f"c14:exception:{jt.type}@{jt.where}", f"{L}: to_junction_tree after adding a factor raised {jt!r}", **detail)
+        else:
+            check_jt(ctx, f"{L}: to_junction_tree after adding a factor", jt, src3, pairs3, **detail)
+    fg = ctx.call(model.to_factor_graph)
+    if not ctx.failed(fg):
+        check_factors(ctx, f"{L}: to_factor_graph after adding a factor", getattr(fg, "factors", None), src3,
+                      expect_n=nf + 1, **detail)
+    run_triangulate(ctx, model, ug3, src3, sq["h"][0], None, False, is_chordal(nodes, pairs3), [], **detail)
+
+
+def seq_fg(spec, ctx, ug, src, pairs, connected, detail):
+    import random
+    sq = spec["seq"]
+    nodes = ug["nodes"]
+    L = "sequence on one FactorGraph"
+    detail = dict(detail, sequence=True)
+    ctx.feature("seq:fg")
+    g = build_fg(ug, random.Random(spec["build_seed"] + 1))
+    nf = len(ug["factors"])
+    mms = []
+    for k in (1, 2):
+        mm = ctx.call(g.to_markov_model)
+        if ctx.failed(mm):
+            ctx.violation(f"c14:exception:{mm.type}@{mm.where}", f"{L}: to_markov_model (call {k}) raised {mm!r}", **detail)
+            return
+        check_graph(ctx, f"{L}: to_markov_model (call {k})", mm, nodes, pairs, "c14:fg2mn-graph", **detail)
+        check_factors(ctx, f"{L}: to_markov_model (call {k})", getattr(mm, "factors", None), src, expect_n=nf, **detail)
+        mms.append(mm)
+        if k == 1:
+            check_Z(ctx, f"{L}: get_partition_function()", ctx.call(g.get_partition_function), src, **detail)
+
+    # edit the first Markov-network target structurally (node / edge / factor LIST are its own)
+    def edit():
+        m = mms[0]
+        m.add_edge("__x", "__y")
+        m.factors.pop()
+        if len(nodes) >= 2:
+            m.remove_node(nodes[-1])
+    ctx.call(edit)
+    check_graph(ctx, f"{L}: second Markov network after editing the first", mms[1], nodes, pairs, "c14:results-aliased", **detail)
+    check_factors(ctx, f"{L}: second Markov network after editing the first", getattr(mms[1], "factors", None), src,
+                  expect_n=nf, wrong_key="c14:results-aliased", **detail)
+    check_factors(ctx, f"{L}: source factors after editing a target", getattr(g, "factors", None), src, expect_n=nf,
+                  wrong_key="c14:source-modified", **detail)
+    check_Z(ctx, f"{L}: get_partition_function() after editing a target", ctx.call(g.get_partition_function), src, **detail)
+    if connected:
+        _jt_twice(ctx, L, g, src, pairs, detail)
+        check_factors(ctx, f"{L}: source factors after to_junction_tree x2", getattr(g, "factors", None), src, expect_n=nf,
+                      wrong_key="c14:source-modified", **detail)
+    # ---- edit the SOURCE: one more factor node
+    f2 = sq["factor"]
+    ug3 = dict(ug, factors=list(ug["factors"]) + [f2])
+    pairs3 = scope_pairs(ug3["factors"])
+
+    def edit_src():
+        phi = build_factor(ug, f2)
+        g.add_node(phi)
+        for v in phi.variables:
+            g.add_edge(v, phi)
+        g.add_factors(phi)
+    if ctx.failed(ctx.call(edit_src)):
+        return
+    try:
+        if len([x for x in g.nodes() if not _hashable_in(x, set(nodes))]) != nf + 1:
+            return                    # the new factor equals an old one: fg:equal-factor-nodes-merged territory
+    except Exception:
+        return
+    src3 = _src_of(ug3)
+    check_Z(ctx, f"{L}: get_partition_function() after adding a factor", ctx.call(g.get_partition_function), src3, **detail)
+    mm = ctx.call(g.to_markov_model)
+    if ctx.failed(mm):
+        ctx.violation(f"c14:exception:{mm.type}@{mm.where}", f"{L}: to_markov_model after adding a factor raised {mm!r}", **detail)
+    else:
+        check_graph(ctx, f"{L}: to_markov_model after adding a factor", mm, nodes, pairs3, "c14:fg2mn-graph", **detail)
+        check_factors(ctx, f"{L}: to_markov_model after adding a factor", getattr(mm, "factors", None), src3,
+                      expect_n=nf + 1, **detail)
+    if _connected(nodes, pairs3):
+        jt = ctx.call(g.to_junction_tree)
+        if ctx.failed(jt):
+            ctx.violation(f"c14:exception:{jt.type}@{jt.where}", f"{L}: to_junction_tree after adding a factor raised {jt!r}", **detail)
+        else:
+            check_jt(ctx, f"{L}: to_junction_tree after adding a factor", jt, src3, pairs3, **detail)
+
+
+def seq_bn(spec, ctx, bn, src, pairs, detail):
+    import random
+    from rv import build
+    sq = spec["seq"]
+    nodes = bn["nodes"]
+    L = "sequence on one BayesianNetwork"
+    detail = dict(detail, sequence=True)
+    ctx.feature("seq:bn")
+    model = build.bayesian_network(bn, rng=random.Random(spec["build_seed"] + 1))
+    connected = _connected(nodes, pairs)
+
+    def convert(tag, s, prs):
+        mm = ctx.call(model.to_markov_model)
+        if ctx.failed(mm):
+            ctx.violation(f"c14:exception:{mm.type}@{mm.where}", f"{L}: to_markov_model ({tag}) raised {mm!r}", **detail)
+            return None
+        check_graph(ctx, f"{L}: to_markov_model ({tag})", mm, nodes, prs, "c14:not-moral-graph", **detail)
+        check_factors(ctx, f"{L}: to_markov_model ({tag})", getattr(mm, "factors", None), s, expect_n=len(nodes), **detail)
+        return mm
+
+    mm1 = convert("call 1", src, pairs)
+    if connected:
+        _jt_twice(ctx, L, model, src, pairs, detail)
+    mm2 = convert("call 2", src, pairs)
+    if mm1 is None or mm2 is None:
+        return
+
+    # overwrite the first target: values, factor list, graph
+    def edit():
+        for p in mm1.factors:
+            p.values *= 3.0
+            p.values.flat[0] = 0.123
+        mm1.factors.pop()
+        mm1.add_edge("__x", "__y")
+        if len(nodes) >= 2:
+            mm1.remove_node(nodes[-1])
+    ctx.call(edit)
+    check_graph(ctx, f"{L}: second Markov network after editing the first", mm2, nodes, pairs, "c14:results-aliased", **detail)
+    check_factors(ctx, f"{L}: second Markov network after editing the first", getattr(mm2, "factors", None), src,
+                  expect_n=len(nodes), wrong_key="c14:results-aliased", **detail)
+    convert("call 3, after overwriting the first target", src, pairs)       # the BN's CPDs must not have followed
+    if connected:
+        jt = ctx.call(model.to_junction_tree)
+        if ctx.failed(jt):
+            ctx.violation(f"c14:exception:{jt.type}@{jt.where}", f"{L}: to_junction_tree after editing a target raised {jt!r}", **detail)
+        else:
+            check_jt(ctx, f"{L}: to_junction_tree after editing a target", jt, src, pairs, **detail)
+    # ---- edit the SOURCE: replace one CPD
+    v = sq["var"]
+    bn3 = dict(bn, cpds=dict(bn["cpds"]))
+    bn3["cpds"][v] = {"parents": list(bn["cpds"][v]["parents"]), "table": sq["table"]}
+    if ctx.failed(ctx.call(lambda: model.add_cpds(build.tabular_cpd(bn3, v)))):
+        return
+    factors = []
+    for x in nodes:
+        c = bn3["cpds"][x]
+        factors.append({"vars": [x] + list(c["parents"]), "values": [float(y) for row in c["table"] for y in row]})
+    src3 = dict(src, factors=factors)
+    src3["J"] = joint_of(src3, factors)
+    src3["Z"] = float(src3["J"].sum())
+    mm = convert("after replacing a CPD", src3, pairs)
+    if mm is not None:
+        check_Z(ctx, f"{L}: to_markov_model().get_partition_function() after replacing a CPD",
+                ctx.call(mm.get_partition_function), src3, **detail)
+    if connected:
+        jt = ctx.call(model.to_junction_tree)
+        if ctx.failed(jt):
+            ctx.violation(f"c14:exception:{jt.type}@{jt.where}", f"{L}: to_junction_tree after replacing a CPD raised {jt!r}", **detail)
+        else:
+            check_jt(ctx, f"{L}: to_junction_tree after replacing a CPD", jt, src3, pairs, **detail)
